@@ -98,9 +98,135 @@ for fn in FNS:
     context = nb[:start] + "<LAZER>" + tail[len(lazer_tail):]
     rows.append((fn, arms, lazer_tail, context))
 
+
+# ---- structured tables (what Model/Mods.lean interprets; proved equal in Props/C08.lean) ----
+MODES = {"Osu": ".osu", "Taiko": ".taiko", "Catch": ".catch", "Mania": ".mania"}
+REFL = {"None": ".none", "Vertical": ".vertical", "Horizontal": ".horizontal", "Both": ".both"}
+names_src = open(os.path.join(os.path.dirname(os.path.abspath(__file__)), "..", "..", "lean", "RosuModel", "Model", "ModNames.lean")).read()
+_m = re.search(r"inductive IMod\b(.*?)deriving", names_src, re.S)
+IMODS = set(re.findall(r"\|\s*(\w+)", _m.group(1))) if _m else set()
+
+
+def variant(pat, fn):
+    """`GameMod::<Kind><Mode>(…)` -> (kind, mode, binder text) or None"""
+    m = re.match(r"GameMod::(\w+?)(Osu|Taiko|Catch|Mania)\((.*)\)$", pat)
+    if not m or m.group(1) not in IMODS:
+        unknown.append(f"{fn}:pattern:{pat}")
+        return None
+    return m.group(1), MODES[m.group(2)], m.group(3)
+
+
+def refl_value(val, binder, fn):
+    m = re.match(r"Some\(Reflection::(\w+)\)$", val)
+    if m and m.group(1) in REFL:
+        return f".const {REFL[m.group(1)]}"
+    m = re.match(r"match " + re.escape(binder) + r"\.reflection\.as_deref\(\)\{(.*)\}$", val)
+    if m:
+        unset, cases, other = None, [], None
+        for a, b in split_arms(m.group(1)):
+            r = re.match(r"Some\(Reflection::(\w+)\)$", b)
+            if not r or r.group(1) not in REFL:
+                unknown.append(f"{fn}:mirror-arm-value:{b}")
+                return None
+            rv = REFL[r.group(1)]
+            s = re.match(r'Some\("([^"\\]*)"\)$', a)
+            if a == "None" and unset is None:
+                unset = rv
+            elif a == "Some(_)" and other is None:
+                other = rv
+            elif s and other is None:
+                cases.append((s.group(1), rv))
+            else:
+                unknown.append(f"{fn}:mirror-arm:{a}")
+                return None
+        if unset is None or other is None:
+            unknown.append(f"{fn}:mirror-arms-incomplete")
+            return None
+        cs = ", ".join(f"({lean_str(a)}, {b})" for a, b in cases)
+        return f".bySetting {unset} [{cs}] {other}"
+    unknown.append(f"{fn}:value:{val}")
+    return None
+
+
+by_fn = {f: (arms, tail, ctx) for f, arms, tail, ctx in rows}
+
+
+def arms_of(fn):
+    arms = by_fn.get(fn, ([], "", ""))[0]
+    if not arms or arms[-1] != ("_", "None"):
+        unknown.append(f"{fn}:no-final-wildcard-None-arm")
+    return [a for a in arms if a[0] != "_"]
+
+
+refl_rows, nsha_rows, hro_rows, scroll_rows, seed_rows = [], [], [], [], []
+fields = []
+for pat, val in arms_of("reflection"):
+    v = variant(pat, "reflection")
+    if v:
+        rv = refl_value(val, v[2], "reflection")
+        if rv:
+            refl_rows.append(f"(.{v[0]}, {v[1]}, {rv})")
+tm_ = re.match(r"\.unwrap_or\(Reflection::(\w+)\)$", by_fn.get("reflection", ([], "", ""))[1])
+refl_else = REFL.get(tm_.group(1)) if tm_ else None
+if refl_else is None:
+    unknown.append("reflection:tail")
+    refl_else = ".none"
+for pat, val in arms_of("no_slider_head_acc"):
+    v = variant(pat, "no_slider_head_acc")
+    m = v and re.match(r"Some\(" + re.escape(v[2]) + r"\.(\w+)\.unwrap_or\((true|false)\)\)$", val)
+    if m:
+        nsha_rows.append(f"(.{v[0]}, {v[1]}, {m.group(2)})")
+        fields.append(("no_slider_head_acc", m.group(1)))
+    elif v:
+        unknown.append(f"no_slider_head_acc:value:{val}")
+if by_fn.get("no_slider_head_acc", ([], "", ""))[1] != ".unwrap_or(!lazer)":
+    unknown.append("no_slider_head_acc:tail")
+cm = re.search(r"Self::Intermode\(ref mods\)=>mods\.contains\(GameModIntermode::(\w+)\)\|\|!lazer,Self::Legacy\(_\)=>!lazer\}$",
+               by_fn.get("no_slider_head_acc", ([], "", ""))[2] or "")
+nsha_im = cm.group(1) if cm and cm.group(1) in IMODS else None
+if nsha_im is None:
+    unknown.append("no_slider_head_acc:intermode-arm")
+    nsha_im = "Unknown"
+for pat, val in arms_of("hardrock_offsets"):
+    m = re.match(r"GameMod::(\w+?)(Osu|Taiko|Catch|Mania)\(\1\2\{(\w+),\.\.\}\)$", pat)
+    if m and m.group(1) in IMODS and val == "*" + m.group(3):
+        hro_rows.append(f"(.{m.group(1)}, {MODES[m.group(2)]})")
+        fields.append(("hardrock_offsets", m.group(3)))
+    else:
+        unknown.append(f"hardrock_offsets:arm:{pat}=>{val}")
+if by_fn.get("hardrock_offsets", ([], "", ""))[1] != "" or not (by_fn.get("hardrock_offsets", ([], "", ""))[2] or "").endswith(
+        "custom_hardrock_offsets(self).unwrap_or_else(||self.hr())"):
+    unknown.append("hardrock_offsets:tail")
+for pat, val in arms_of("scroll_speed"):
+    v = variant(pat, "scroll_speed")
+    m = v and re.match(r"Some\(" + re.escape(v[2]) + r"\.(\w+)\)$", val)
+    if m:
+        scroll_rows.append(f"(.{v[0]}, {v[1]})")
+        fields.append(("scroll_speed", m.group(1)))
+    elif v:
+        unknown.append(f"scroll_speed:value:{val}")
+if by_fn.get("scroll_speed", ([], "", ""))[1] != ".flatten()":
+    unknown.append("scroll_speed:tail")
+for pat, val in arms_of("random_seed"):
+    v = variant(pat, "random_seed")
+    m = v and re.match(re.escape(v[2]) + r"\.(\w+)$", val)
+    if m:
+        seed_rows.append(f"(.{v[0]}, {v[1]})")
+        fields.append(("random_seed", m.group(1)))
+    elif v:
+        unknown.append(f"random_seed:value:{val}")
+if by_fn.get("random_seed", ([], "", ""))[1] != ".map(|seed|seed as i32)":
+    unknown.append("random_seed:tail")
+for fn in ("scroll_speed", "random_seed"):
+    if (by_fn.get(fn, ([], "", ""))[2] or "") != "let Self::Lazer(mods)=self else{return None};<LAZER>":
+        unknown.append(f"{fn}:non-lazer-guard")
+
 L = []
+L.append("import RosuModel.Model.ModNames")
+L.append("")
 L.append("/- GENERATED by tools/translate.d/lazer_settings.py from /repo/src/model/mods.rs — do not edit. -/")
 L.append("namespace Rosu.Gen.LazerSettings")
+L.append("open Rosu.Mods")
 L.append("")
 L.append("/-- accessor ↦ arms (pattern, value) of the `find_map` closure over the lazer mods -/")
 L.append("def lazerArms : List (String × List (String × String)) := [")
@@ -116,6 +242,18 @@ L.append("/-- accessor ↦ the rest of its body, the lazer lookup written `<LAZE
 L.append("def accessorContext : List (String × String) := [")
 L.append(",\n".join(f"  ({lean_str(f)}, {lean_str(c if isinstance(c, str) else '?')})" for f, _, _, c in rows))
 L.append("]")
+L.append("")
+L.append("/-! structured form of the arms (kind, mode of the `GameMod::<Kind><Mode>` pattern, value) -/")
+L.append("def reflLazerArms : List (IMod × Mode × ReflVal) := [" + ", ".join(refl_rows) + "]")
+L.append(f"def reflLazerElse : Reflection := {refl_else}")
+L.append("/-- (kind, mode, default of `.unwrap_or(default)` on the setting) -/")
+L.append("def nshaLazerArms : List (IMod × Mode × Bool) := [" + ", ".join(nsha_rows) + "]")
+L.append(f"def nshaIntermodeMod : IMod := .{nsha_im}")
+L.append("def hroLazerArms : List (IMod × Mode) := [" + ", ".join(hro_rows) + "]")
+L.append("def scrollLazerArms : List (IMod × Mode) := [" + ", ".join(scroll_rows) + "]")
+L.append("def seedLazerArms : List (IMod × Mode) := [" + ", ".join(seed_rows) + "]")
+L.append("/-- (accessor, name of the setting its arm reads) -/")
+L.append("def settingFields : List (String × String) := [" + ", ".join(f"({lean_str(a)}, {lean_str(b)})" for a, b in fields) + "]")
 L.append("")
 L.append("/-- shapes the extractor did not understand (must be empty) -/")
 L.append(f"def lazerSettingsUnknown : List String := {strs(unknown)}")
